@@ -325,8 +325,8 @@ func (w *World) randPowerShaping() *providertypes.PowerShapingParameters {
 	if w.Rnd.Intn(4) == 0 {
 		ps.Denylist = w.randConsAddrs(2)
 	}
-	if w.Rnd.Intn(3) == 0 {
-		ps.Prioritylist = w.randConsAddrs(3)
+	if w.Rnd.Intn(2) == 0 {
+		ps.Prioritylist = w.randConsAddrs(4)
 	}
 	if w.Rnd.Intn(4) == 0 {
 		ps.MinStake = uint64(w.Cfg.Tokens[w.Rnd.Intn(len(w.Cfg.Tokens))]) + uint64(w.Rnd.Intn(3)) - 1
@@ -438,7 +438,7 @@ func opUpdateConsumer(w *World) *Op {
 		what = "power-shaping"
 		// sometimes: the stored parameters with one list permuted, or with one entry replaced by a copy of another entry
 		// (same length, duplicates are accepted by the message validation)
-		if cur, err := w.P.PApp.ProviderKeeper.GetConsumerPowerShapingParameters(w.P.Ctx(), ci.ID); err == nil && w.Rnd.Intn(3) == 0 {
+		if cur, err := w.P.PApp.ProviderKeeper.GetConsumerPowerShapingParameters(w.P.Ctx(), ci.ID); err == nil && w.Rnd.Intn(2) == 0 {
 			mut := func(l []string) ([]string, bool) {
 				if len(l) < 2 {
 					return l, false
@@ -502,6 +502,64 @@ func opUpdateConsumer(w *World) *Op {
 	w.Op("update-consumer %s by %s: %s", ci.ID, ci.Owner.Name, what)
 	op := one("update-consumer", ci.Owner, msg)
 	op.Specs[0].Tag = "update-consumer:" + what
+	return op
+}
+
+// opUpdateLists works on the allow/deny/priority lists of one consumer: if it has no list of two or more entries it gets a
+// priority list (and a validator-set cap); otherwise one list is permuted, or one entry is replaced by a copy of another entry
+// (same length; duplicates pass the message validation), everything else unchanged.
+func opUpdateLists(w *World) *Op {
+	ci := w.randConsumer(allActive...)
+	if ci == nil || ci.Owner == nil {
+		return nil
+	}
+	cur, err := w.P.PApp.ProviderKeeper.GetConsumerPowerShapingParameters(w.P.Ctx(), ci.ID)
+	if err != nil {
+		return nil
+	}
+	np := cur
+	what := ""
+	mut := func(l []string) []string {
+		out := append([]string(nil), l...)
+		i := w.Rnd.Intn(len(out))
+		j := (i + 1 + w.Rnd.Intn(len(out)-1)) % len(out)
+		if w.Rnd.Intn(2) == 0 {
+			out[i], out[j] = out[j], out[i]
+			what = "permuted"
+		} else {
+			out[i] = out[j]
+			what = "entry-duplicated"
+		}
+		return out
+	}
+	switch {
+	case len(cur.Prioritylist) >= 2 && w.Rnd.Intn(3) != 0:
+		np.Prioritylist = mut(cur.Prioritylist)
+		what = "prioritylist-" + what
+	case len(cur.Allowlist) >= 2 && w.Rnd.Intn(2) == 0:
+		np.Allowlist = mut(cur.Allowlist)
+		what = "allowlist-" + what
+	case len(cur.Denylist) >= 2:
+		np.Denylist = mut(cur.Denylist)
+		what = "denylist-" + what
+	default:
+		vals := w.createdVals()
+		if len(vals) < 3 {
+			return nil
+		}
+		perm := w.Rnd.Perm(len(vals))
+		np.Prioritylist = nil
+		for _, i := range perm[:2+w.Rnd.Intn(2)] {
+			np.Prioritylist = append(np.Prioritylist, vals[i].ConsAddr().String())
+		}
+		if np.Top_N == 0 && np.ValidatorSetCap == 0 {
+			np.ValidatorSetCap = uint32(1 + w.Rnd.Intn(len(vals)))
+		}
+		what = "prioritylist-set"
+	}
+	w.Op("update-lists %s by %s: %s", ci.ID, ci.Owner.Name, what)
+	op := one("update-consumer", ci.Owner, &providertypes.MsgUpdateConsumer{Owner: ci.Owner.Addr.String(), ConsumerId: ci.ID, PowerShapingParameters: &np})
+	op.Specs[0].Tag = "update-consumer:lists:" + what
 	return op
 }
 
